@@ -76,3 +76,178 @@ V('C14-keyattr', 'C14', CDB,
 V('C14-benign-rename-local', 'C14', CDB,
   "        best_match_s = None\n",
   "        best_match_s = None  # nothing found yet\n", 'SILENT')
+
+
+# ----------------------------------------------------------------------- C15
+ILF = 'pylatexenc/latex2text/_inputlatexfile.py'
+L2T = 'pylatexenc/latex2text/__init__.py'
+
+V('C15-revert-D10-prefix', 'C15', ILF,
+  """    if not dirfull.endswith(os.sep):
+        dirfull = dirfull + os.sep
+    return fnfull.startswith(dirfull)""",
+  """    return fnfull.startswith(dirfull)""", 'R15a',
+  'D10a: bare prefix test accepts sibling directory basement for base')
+V('C15-revert-D10-ext-after-check', 'C15', ILF,
+  """            return ''
+
+    if not os.path.isfile(fnfull):""",
+  """            return ''
+
+    if not os.path.exists(fnfull) and os.path.exists(fnfull + '.tex'):
+        fnfull = fnfull + '.tex'
+    if not os.path.isfile(fnfull):""", 'R15b',
+  'D10b: extension added after the check')
+V('C15-no-recanonicalise', 'C15', ILF,
+  """        fnfull = os.path.realpath(fnfull)
+        dirfull = os.path.realpath(tex_input_directory)""",
+  """        dirfull = os.path.realpath(tex_input_directory)""", 'R15b')
+V('C15-dir-not-canonical', 'C15', ILF,
+  "        dirfull = os.path.realpath(tex_input_directory)",
+  "        dirfull = os.path.abspath(tex_input_directory)", 'R15b')
+V('C15-polarity', 'C15', ILF,
+  "        if not _is_path_within_directory(fnfull, dirfull):",
+  "        if _is_path_within_directory(fnfull, dirfull):", 'R15a')
+V('C15-strict-not-forwarded', 'C15', L2T,
+  "return read_latex_file(self.tex_input_directory, self.strict_input, fn)",
+  "return read_latex_file(self.tex_input_directory, False, fn)", 'R15c')
+V('C15-no-dir-guard', 'C15', L2T,
+  """        if self.tex_input_directory is None:
+            return ''
+
+        return read_latex_file""",
+  """        return read_latex_file""", 'R15c')
+V('C15-strict-default', 'C15', L2T,
+  "        self.strict_input = True\n", "        self.strict_input = False\n", 'R15c')
+V('C15-other-opener', 'C15', L2T,
+  """        if not inputtex:
+            return ''
+""",
+  """        if not inputtex:
+            try:
+                with open(fn) as f:
+                    inputtex = f.read()
+            except IOError:
+                return ''
+""", 'R15d')
+V('C15-benign-commonpath', 'C15', ILF,
+  "        if not _is_path_within_directory(fnfull, dirfull):",
+  "        if not (os.path.commonpath([fnfull, dirfull]) == dirfull):", 'SILENT')
+V('C15-helper-true-unguarded', 'C15', ILF,
+  """    if fnfull == dirfull:
+        return True
+    if not dirfull.endswith(os.sep):""",
+  """    if fnfull.startswith(dirfull):
+        return True
+    if not dirfull.endswith(os.sep):""", 'R15a')
+
+
+# ----------------------------------------------------------------------- C17
+PS = 'pylatexenc/latexnodes/_parsingstate.py'
+
+V('C17-revert-D13', 'C17', PS,
+  """           and 'math_mode_delimiter' not in kwargs \\
+           and 'latex_inline_math_delimiters' not in kwargs \\
+           and 'latex_display_math_delimiters' not in kwargs:""",
+  """           and 'math_mode_delimiter' not in kwargs:""", 'P2',
+  'D13: cache key forgets the delimiter lists')
+V('C17-key-forgets-display', 'C17', PS,
+  """           and 'latex_inline_math_delimiters' not in kwargs \\
+           and 'latex_display_math_delimiters' not in kwargs:
+            # relevant info not changed, reuse parent info""",
+  """           and 'latex_inline_math_delimiters' not in kwargs:
+            # relevant info not changed, reuse parent info""", 'P2')
+V('C17-inherit-wrong-attr', 'C17', PS,
+  "            self._latex_group_delimchars_close = parent._latex_group_delimchars_close",
+  "            self._latex_group_delimchars_close = parent._math_delims_close", 'P4')
+V('C17-inherit-misses-attr', 'C17', PS,
+  "            self._math_delims_close = parent._math_delims_close\n", "", 'P4')
+V('C17-recompute-reads-parent', 'C17', PS,
+  "        self._latex_group_delimchars_by_open = dict(self.latex_group_delimiters)",
+  "        self._latex_group_delimchars_by_open = dict(parent.latex_group_delimiters if parent is not None else self.latex_group_delimiters)", 'P1')
+V('C17-subcontext-drops-field', 'C17', PS,
+  "        attrs = self.get_fields()\n",
+  "        attrs = {k: v for k, v in self.get_fields().items() if k != 'forbidden_characters'}\n", 'P3')
+V('C17-subcontext-writes-self', 'C17', PS,
+  "        attrs.update(kwargs2)\n",
+  "        attrs.update(kwargs2)\n        self.in_math_mode = attrs['in_math_mode']\n", 'P3')
+V('C17-field-not-in-fields', 'C17', PS,
+  "        'comment_start',\n        'forbidden_characters',\n    )",
+  "        'comment_start',\n    )", 'P3')
+V('C17-order-swapped', 'C17', PS,
+  """        self._finalize_state_latex_math_delim_info(parent, kwargs)
+        self._finalize_state_inmathmode_info(parent, kwargs)""",
+  """        self._finalize_state_inmathmode_info(parent, kwargs)
+        self._finalize_state_latex_math_delim_info(parent, kwargs)""", 'P7')
+V('C17-changed-subset-filter', 'C17', PS,
+  "            if not _safe_eq(v, attrs[k])",
+  "            if v is not None and not _safe_eq(v, attrs[k])", 'P3')
+V('C17-mutation-elsewhere', 'C17', 'pylatexenc/latexnodes/parsers/_delimited.py',
+  """        return parsing_state.sub_context(
+            latex_group_delimiters = \\
+                parsing_state.latex_group_delimiters + [ delimiters_t ]
+        )""",
+  """        parsing_state.latex_group_delimiters.append(delimiters_t)
+        return parsing_state.sub_context()""", 'P6')
+V('C17-benign-comment', 'C17', PS,
+  "        attrs.update(kwargs2)\n", "        attrs.update(kwargs2)  # apply changes\n", 'SILENT')
+
+
+# ----------------------------------------------------------------------- C19
+ND = 'pylatexenc/latexnodes/nodes.py'
+V('C19-skip-args', 'C19', ND,
+  """        visited_results_arguments = self.descend_into_parsed_arguments(node.nodeargd)
+
+        return self.visit_specials_node(""",
+  """        visited_results_arguments = None
+
+        return self.visit_specials_node(""", 'V2')
+V('C19-wrong-dispatch', 'C19', ND,
+  "        return visitor.node_standard_process_math(self)",
+  "        return visitor.node_standard_process_group(self)", 'V1')
+V('C19-double-descend', 'C19', ND,
+  """        visited_results_nodelist = self.descend_into_nodelist(node.nodelist)
+
+        return self.visit_group_node(""",
+  """        self.descend_into_nodelist(node.nodelist)
+        visited_results_nodelist = self.descend_into_nodelist(node.nodelist)
+
+        return self.visit_group_node(""", 'V2')
+V('C19-early-break', 'C19', ND,
+  """            else:
+                visited_results_nodelist.append( None )
+""",
+  """            else:
+                break
+""", 'V3')
+V('C19-results-swapped', 'C19', ND,
+  """            visited_results_arguments=visited_results_arguments,
+            visited_results_body=visited_results_body,""",
+  """            visited_results_arguments=visited_results_body,
+            visited_results_body=visited_results_arguments,""", 'V2')
+V('C19-recomposer-drops-args', 'C19', 'pylatexenc/latexnodes/_latex_recomposer.py',
+  """        return self.recompose_specials_call(
+            node.specials_chars,
+            node.nodeargd,
+            node
+        )""",
+  """        return self.recompose_specials_call(
+            node.specials_chars,
+            None,
+            node
+        )""", 'V4')
+V('C19-benign-comprehension', 'C19', ND,
+  """        visited_results_nodelist = []
+        for cnode in nodelist:
+            if cnode is not None:
+                visited_results_nodelist.append(
+                    cnode.accept_node_visitor(self)
+                )
+            else:
+                visited_results_nodelist.append( None )
+
+        return visited_results_nodelist""",
+  """        return [
+            cnode.accept_node_visitor(self) if cnode is not None else None
+            for cnode in nodelist
+        ]""", 'SILENT')
